@@ -20,8 +20,9 @@ class IdRules:
         if len(sp) != 1:
             raise AnalysisBroken('HeartBeater: expected exactly one shared_ptr member (the heartbeat), found %d' % len(sp))
         self.idf = sp[0]['name']
-        arr = [g for g in fx.globals.values() if g.get('extent') and ('atomic<bool>' in g['type'].get('ct', '') or 'atomic_flag' in g['type'].get('ct', ''))
-               and g['file'].endswith('id_manager.cpp')]
+        arr = [g for g in fx.globals.values() if g.get('extent') and g['file'].endswith('id_manager.cpp') and
+               ('atomic<bool>' in g['type'].get('ct', '') or 'atomic_flag' in g['type'].get('ct', '') or
+                any('atomic<bool>' in b or 'atomic_flag' in b for b in g.get('elem_bases') or ()))]
         self.bitmap = None         # bits per word when the reservation states are packed into atomic integer words
         if not arr:
             import re as _re
@@ -320,6 +321,17 @@ class IdRules:
 
     def c05(self):
         sink, f = self.sink, self.getter
+        # C05.INIT: the reservation states exist, all free, before any code can ask for an ID: the array is constant-initialised.
+        # A dynamic initialiser (a non-constexpr constructor of a wrapper type, a non-constant initialiser) runs at some point
+        # during program start-up and wipes the reservations of threads that obtained their ID before it
+        ci = self.arr.get('const_init')
+        if ci is None:
+            sink.unsup('C05.INIT', 'the reservation array is constant-initialised', '%s:%s' % (self.arr['file'], self.arr['line']), 'not reported by the extractor')
+        else:
+            sink.emit('C05.INIT', 'ok' if ci else 'violated', 'the reservation array is constant-initialised', '%s:%s' % (self.arr['file'], self.arr['line']),
+                      'static initialisation: all flags are free before any code runs' if ci else
+                      '%s %s is initialised dynamically: an ID handed out before this translation unit\'s initialiser runs (from another unit\'s static '
+                      'initialisation) is marked free again and handed to a second live thread' % (self.arr['type'].get('t'), self.arr['name']))
         res = self.paths[f['key']]
         n_claim = 0
         for p in res['paths']:
